@@ -23,7 +23,8 @@ def run(tier, seed, workers):
                    + cov['rule'].split('L3:')[-1])
     cov['samples'] = [{'fault': 'out-of-turn', 'state': '3H by S after 17 plays', 'seat': 'W', 'card': 'lowest held'},
                       {'fault': 'after-the-end', 'state': 'after 52 plays', 'engine': 'observer-N'}]
-    return Result(cov, viol, C04.ASSUME[:1] + ['an observer is required to refuse only plays whose illegality it can see (the turn; possession in its own hand and in an exposed dummy)'])
+    return Result(cov, viol, C04.ASSUME[:1] + ['an observer is required to refuse only plays whose illegality it can see (the turn; possession in its own hand and in an exposed dummy)'],
+                  level='fault_enumeration')
 
 
 replay = C04.replay
